@@ -407,6 +407,15 @@ theorem set_refines (inj : injector) (hw : WfI inj) (t : Ty) (v : Int) (hv : 0 <
     simp only [hb, Bool.false_eq_true, if_false]
     rw [lookup_register_ne _ _ _ _ (fun e => ht e.symm), lookup_of_nodup _ (by rw [scope_keys]; exact hw.nodup)]
 
+/-! ### `SetParent` -/
+
+/-- `SetParent(p)` makes `p` the injector every unanswered lookup goes on to (`value_one`'s third clause), and touches
+nothing else -/
+theorem setParent_refines (inj : injector) (p : Env) :
+    (SetParent inj p).2 = { inj with parent := p } ∧ (SetParent inj p).2.values = inj.values
+      ∧ parentAnswer (SetParent inj p).2 = (if p.isNil then 0 else (p.answers p.trace.length "Value").1) :=
+  ⟨rfl, rfl, rfl⟩
+
 /-! ### `Map` -/
 
 /-- the loop of `Map`, in closed form: `Set(TypeOf(v), ValueOf(v))` for each value, in the order given -/
